@@ -50,6 +50,10 @@ Fixpoint ins (d : nat -> R) (x : nat) (l : list nat) : list nat :=
   match l with [] => [x] | y :: r => if leb (d x) (d y) then x :: y :: r else y :: ins d x r end.
 Definition argsort (n : nat) (d : nat -> R) : list nat := fold_right (ins d) [] (seq 0 n).
 
+(* repaired dense / Krylov rules: the oracle's pairs are first put in ascending order of [leb] (argsort of the magnitudes),
+   then sliced - so that 'LM' / 'SM' mean largest / smallest for that order *)
+Definition eig_sorted (m : nat) (w : nat -> R) (V : fm) (k : Z) (wh : which) : option eout :=
+  slice_out k wh (take (argsort m w) (mkeout m w V)).
 (* eig(Identity): ones, the dense identity, then the slice *)
 Definition eig_ident (n : nat) (k : Z) (wh : which) : option eout :=
   slice_out k wh (mkeout n (fun _ => r1) eye).
@@ -72,6 +76,13 @@ Definition eig_tri (n : nat) (L : fm) (k : Z) (wh : which) : option eout :=
   let vals := fun i => L i i in
   let idx := argsort n vals in
   slice_out k wh (take idx (mkeout n vals (tri_eigvecs L))).
+(* repaired rule for a LOWER triangular operator: the routine is applied to the matrix with rows and columns reversed
+   (which is upper triangular) and the result is reversed back *)
+Definition flip (n : nat) (M : fm) : fm := fun i j => M (n - 1 - i)%nat (n - 1 - j)%nat.
+Definition eig_tri_lower (n : nat) (L : fm) (k : Z) (wh : which) : option eout :=
+  let vals := fun i => L i i in
+  let idx := argsort n vals in
+  slice_out k wh (take idx (mkeout n vals (flip n (tri_eigvecs (flip n L))))).
 
 (* eigmax / eigmin: first value of eig(A, 1, LM|SM) *)
 Definition first_val (o : option eout) : option R := match o with Some e => Some (ew e 0%nat) | None => None end.
